@@ -301,11 +301,17 @@ struct Counters {
 } C;
 vx::Distinct g_distinct;
 
+// Same steps as DecodeRawPSBT, but the (header-inline) deserialisation templates are instantiated in this translation unit.
 std::optional<PartiallySignedTransaction> decode(const Bytes& b)
 {
-    auto r = DecodeRawPSBT(MakeByteSpan(b));
-    if (!r) return std::nullopt;
-    return *r;
+    SpanReader ss{MakeByteSpan(b)};
+    try {
+        PartiallySignedTransaction psbt(deserialize, ss);
+        if (!ss.empty()) return std::nullopt; // extra data after PSBT
+        return psbt;
+    } catch (const std::exception&) {
+        return std::nullopt;
+    }
 }
 Bytes encode(const PartiallySignedTransaction& p) { DataStream s; s << p; Bytes o(s.size()); memcpy(o.data(), s.data(), s.size()); return o; }
 
